@@ -162,6 +162,24 @@ func cliExit(r *Run) {
 		}
 		r.Probe("bad-option-value")
 	}
+	// Create that fails part-way: the first recovery file cannot be
+	// written because a directory of that name is in the way
+	if t.Bool(1, 8, "create-fails-midway") {
+		obst := "mid.vol00+01.par2"
+		if par1Set {
+			obst = "mid.p01"
+		}
+		os.MkdirAll(filepath.Join(setDir, obst), 0755)
+		res := r.RunPar(setDir, "create", "mid"+ext, w.Files[0].Name)
+		check(res, "par create with an unwritable recovery file", notIn(0, 3), "not 0 and not 3 (write failure)", "fresh")
+		ents, _ := os.ReadDir(setDir)
+		for _, e := range ents {
+			if strings.HasPrefix(e.Name(), "mid.") {
+				os.RemoveAll(filepath.Join(setDir, e.Name()))
+			}
+		}
+		r.Probe("create-fails-midway")
+	}
 	// unknown extension / missing input
 	if t.Bool(1, 5, "create-bad") {
 		var res CLIResult
